@@ -5,7 +5,9 @@
   (1) for the Euler and the implicit configurations (sleeping off) `step1 ; step2` launches exactly the same kernels,
       in the same order, as `step` — except for the inertia factor/solve kernels, which `step1` runs as
       factor (in fwd_position) + solve (in fwd_acceleration) where `step` runs the fused factor-solve;
-  (2) `forward()` writes no integration-state field except the listed ones.
+  (2) `forward()` writes no integration-state field except the listed ones;
+  (3) in `step1 ; step2`, `forward` and `step` the inertia matrix `d.M` is complete (zeroing, crb, tendon armature) before any event
+      reads it, and every solve with the inertia factor follows a factorisation of the CURRENT `d.M` (list order).
   A configuration is given by the list of host conditions that are false in it; every other condition (those about
   model sizes, flags, solver type …) is kept on BOTH sides, so the equality holds for all their values.
 -/
@@ -68,5 +70,98 @@ def forwardStateWrites : List String :=
     into the history buffer during `sensor_*` (as `mj_forward` does when sensors have delays).  So for models
     without delayed sensors forward() never changes the integration state. -/
 theorem forward_preserves_state_partial : forwardStateWrites = ["d.history"] := by decide +kernel
+
+/-! ## Ordering of the writers and the consumers of the inertia matrix `d.M` and of its factor -/
+
+/-- evaluate `nameId s` ONCE (the match forces it to a numeral) and hand the numeral to `k` (as in Props/C08.lean) -/
+def withId {α : Type} (s : String) (k : Nat → α) : α :=
+  match nameId s with
+  | 0 => k 0
+  | n + 1 => k (n + 1)
+
+/-- Positions (in list order) of the events that WRITE field `f` after some event has READ it without writing it, within one
+    recomputation of `f`: a recomputation starts at a host-side re-initialisation of `f` (`hostWrite`: `d.M.zero_()`).
+    Empty = every consumer of `f` sees the finished value: no stage adds to `f` behind a consumer's back. -/
+def writeAfterRead (f : Nat) (evs : List Event) : List Nat :=
+  let rec go (evs : List Event) (i : Nat) (consumed : Bool) (acc : List Nat) : List Nat :=
+    match evs with
+    | [] => acc.reverse
+    | e :: rest =>
+      let w := e.writes.contains f
+      if w && e.kind == EvKind.hostWrite then go rest (i + 1) false acc
+      else if w then go rest (i + 1) consumed (if consumed then i :: acc else acc)
+      else go rest (i + 1) (consumed || e.reads.contains f) acc
+  go evs 0 false []
+
+/-- Positions of the events that SOLVE with the inertia factor (read one of the fields `fac` without writing any of them)
+    while the factor is stale: no factorisation (an event reading `mM` and writing one of `fac`) has run since the last
+    write of `mM` — or none at all. -/
+def staleSolves (mM : Nat) (fac : List Nat) (evs : List Event) : List Nat :=
+  let rec go (evs : List Event) (i : Nat) (fresh : Bool) (acc : List Nat) : List Nat :=
+    match evs with
+    | [] => acc.reverse
+    | e :: rest =>
+      let wf := e.writes.any fac.contains
+      if e.writes.contains mM then go rest (i + 1) false acc
+      else if wf && e.reads.contains mM then go rest (i + 1) true acc
+      else if !wf && e.reads.any fac.contains then go rest (i + 1) fresh (if fresh then acc else i :: acc)
+      else go rest (i + 1) fresh acc
+  go evs 0 false []
+
+/-- (writers of `mM`, events reading `mM` without writing it, solves with the factor) — for non-vacuity -/
+def inertiaCounts (mM : Nat) (fac : List Nat) (evs : List Event) : Nat × Nat × Nat :=
+  ((evs.filter (fun e => e.writes.contains mM)).length,
+   (evs.filter (fun e => !e.writes.contains mM && e.reads.contains mM)).length,
+   (evs.filter (fun e => !e.writes.any fac.contains && e.reads.any fac.contains)).length)
+
+/-- the launches (not the host re-initialisation) that write `mM` -/
+def accumulators (mM : Nat) (evs : List Event) : List Event :=
+  evs.filter (fun e => e.kind == EvKind.launch && e.writes.contains mM)
+
+/-- the factor of M as the host events see it: `d.qLD`, `d.qLDiagInv` and the local slices `L` / `L_ldl` of `d.qLD`
+    (the LDL region handed to the sparse factor/solve; the extractor keeps the local name) -/
+def withInertiaIds {α : Type} (k : Nat → List Nat → α) : α :=
+  withId "d.M" fun mM => withId "d.qLD" fun qLD => withId "d.qLDiagInv" fun qLDi => withId "L" fun l => withId "L_ldl" fun lldl =>
+    k mM [qLD, qLDi, l, lldl]
+
+def inertiaOrderFacts : List (List Nat × List Nat) :=
+  withInertiaIds fun mM fac =>
+    [forward_step1 ++ forward_step2, forward_forward, forward_step].map fun evs => (writeAfterRead mM evs, staleSolves mM fac evs)
+
+theorem inertia_order_facts : inertiaOrderFacts = [([], []), ([], []), ([], [])] := by decide +kernel
+
+/-- **inertia_complete_before_use**: in `step1; step2`, in `forward` and in `step` (all integrators, RK4 stages included;
+    list order, host conditions ignored) every event that reads `d.M` without writing it — the factorisations
+    (`factor_m` in step1, the fused factor-solve in `fwd_acceleration`), the gather for sleeping islands, Newton's
+    Hessian `JᵀDJ + M`, the implicit integrators — comes after ALL events that write `d.M` since its last
+    re-initialisation (`d.M.zero_()`, `crb`'s `_M`, `_tendon_armature`): nobody consumes an inertia matrix that a later
+    stage still adds to.  Running `tendon_armature` after `factor_m` (or after anything else that reads M) breaks this proof. -/
+theorem inertia_complete_before_use : inertiaOrderFacts.map (·.1) = [[], [], []] :=
+  by rw [inertia_order_facts]; rfl
+
+/-- **inertia_factor_fresh_at_solve**: in the same three pipelines every solve with the inertia factor (`solve_m`:
+    `qacc_smooth` in step2, the CG preconditioner `Mgrad`; reads `d.qLD`/`d.qLDiagInv`) is preceded by a factorisation that read
+    `d.M`, with NO write of `d.M` between that factorisation and the solve. -/
+theorem inertia_factor_fresh_at_solve : inertiaOrderFacts.map (·.2) = [[], [], []] :=
+  by rw [inertia_order_facts]; rfl
+
+def inertiaNonVacuity : Bool × List String × Bool × Bool × Bool :=
+  withInertiaIds fun mM fac =>
+    let late := accumulators mM forward_step1
+    (([forward_step1 ++ forward_step2, forward_forward, forward_step].map (inertiaCounts mM fac)).all
+        (fun c => 3 ≤ c.1 && 3 ≤ c.2.1 && 3 ≤ c.2.2),
+     late.map (fun e => name e.subject),
+     -- step2 on its own solves with a factor that no event of the list produced
+     (staleSolves mM fac forward_step2).isEmpty,
+     -- the launches that add to M, replayed behind step1's factorisation: caught by both scans
+     (writeAfterRead mM (forward_step1 ++ late ++ forward_step2)).isEmpty,
+     (staleSolves mM fac (forward_step1 ++ late ++ forward_step2)).isEmpty)
+
+/-- non-vacuity: the scans see writers (≥ 3), consumers (≥ 3) and solves (≥ 3) in every pipeline, the launches that write `d.M`
+    in step1 are `crb`'s `_M` and `_tendon_armature`, and the scans are NOT empty on `step2` alone nor when those launches
+    run (again) between step1's factorisation and step2's solve. -/
+theorem inertia_order_nonvacuous :
+    inertiaNonVacuity = (true, ["smooth._M", "smooth._tendon_armature"], false, false, false) := by
+  decide +kernel
 
 end Mjw.Props.C37
